@@ -9,7 +9,10 @@ def spec(th, seed):
              U('C07_half.simd-avx-f16c', 'mon/C07_half.cpp', 'plain', defs=F16C + ['-DGLM_FORCE_INTRINSICS', '-mavx2', '-mfma'], args=['--x-stride', '7'])]
     # C++20 translation unit (glm selects language-level dependent code from __cplusplus)
     units.append(U('C07_half.cxx20', 'mon/C07_half.cpp', 'plain', defs=F16C + ['-std=c++20'], args=['--x-stride', '5']))
+    # a typical release build: -O2 with FMA contraction allowed (the oracle is an integer model, contraction cannot touch it)
+    units.append(U('C07_half.O2-fma-contract', 'mon/C07_half.cpp', 'plainO2fma', defs=F16C, args=['--x-stride', '3']))
     if th:
+        units.append(U('C07_half.Os', 'mon/C07_half.cpp', 'plainOs', defs=F16C, args=['--x-stride', '7']))
         units.append(U('C07_half.clang.cxx20', 'mon/C07_half.cpp', 'clang', defs=F16C + ['-std=c++20'], args=['--x-stride', '5']))
         units.append(U('C07_half.clang', 'mon/C07_half.cpp', 'clang', defs=F16C))
         units.append(U('C07_half.O0', 'mon/C07_half.cpp', 'plainO0', defs=F16C, args=['--x-stride', '61']))
